@@ -47,6 +47,9 @@ CHECKS["C09"] = dict(cat="exploration", tech="differential testing across 28 sql
 CHECKS["C18"] = dict(cat="exploration", tech="invariant (validity-predicate) checking of both export levels, the text summary and the /lineage route over a generated + harvested result pool",
     text="Unique ids, referential integrity of edges and compound parents, table nodes == summaries, column edges == hops of all reported paths, parent == owner, sorted duplicate-free text summary and route/runner agreement are evaluated on every result of the pool. Sampled inputs, invariants complete per result.",
     ref="DESIGN.md section 4 C18")
+CHECKS["C14"] = dict(cat="exploration", tech="metamorphic testing on the SQL IR: analysis under a default schema vs the IR with every unqualified table explicitly qualified; both mechanisms (scoped override, environment variable in fresh interpreters)",
+    text="For generated statements of every supported kind, C03-style scripts with DROP/RENAME and dialect-specific creation sites (vertica swap partitions, spark directory targets, legacy analyzer), the canonical dump under default schema S (lower/UPPER/Mixed/quoted, fresh or already used as qualifier) must equal the dump of the explicitly qualified IR; with no default, substituting the placeholder must give the same dump. Sampled.",
+    ref="DESIGN.md section 4 C14")
 NA = {}
 def main():
     props = [json.loads(l)["id"] for l in open(os.path.join(HOME, "properties.jsonl"))]
